@@ -262,7 +262,8 @@ CLAIMED = {
              "facts of app/ante/commission.go), an accepted tx whose staking messages are direct or nested in authz MsgExec to any depth "
              "keeps every validator's commission within 25%; counterexample theorems for the decorator as it was (repaired by fix: "
              "commit c6f3132) and for contract-dispatched staking messages (known finding C17-wasm-stargate). Correspondence through "
-             "full DeliverTx on the real app (real staking keeper, reflect contract).",
+             "full DeliverTx on the real app (real staking keeper, reflect contract), plus an oracle-judged run that delivers genesis "
+             "transactions (gentx with generated commission rates) through InitChain of fresh applications.",
         note="Trusted: Lean kernel; harness; extractor. The cap theorem excludes wasm-dispatched staking messages (known finding). "
              "x/staking's own MaxRate/MaxChangeRate rules are outside the model.",
         technique="Lean 4 proof (mutual structural induction over message trees) + regenerated decorator facts + differential correspondence",
